@@ -419,6 +419,59 @@ class SeqMapPrims:
             I.write_loc(path, vloc, new)
             path.events.append(("seqstore", vloc, new))
             return [(A.UNIT, path)]
+        # ---- element-wise copy loops: for (d, s) in dst.iter_mut().zip(src.iter()) { *d = *s }
+        if short == "iter_mut" and len(args) == 1 and is_seq(strip(I._deref_all(path, a0)), self.atom_pred):
+            l_ = self.loc_of(I, path, a0)
+            if l_ is not None:
+                return [(("sqitermut", l_), path)]
+        if short == "zip" and len(args) == 2:
+            za, zb = I._deref_all(path, args[0]), I._deref_all(path, args[1])
+            if za[0] == "sqitermut" and is_seq(strip(zb), self.atom_pred):
+                return [(("sqzip", za, strip(zb)), path)]
+            if za[0] == "sqitermut" or zb[0] == "sqitermut":
+                self.unmodelled.append(name + " (zip shape)")
+                return None
+        if short == "into_iter" and a0[0] == "sqzip":
+            return [(a0, path)]
+        if short == "next" and args and I._deref_all(path, a0)[0] == "sqzip":
+            z = I._deref_all(path, a0)
+            xloc, y0 = z[1][1], z[2]
+            key = ("zipst", xloc)
+            st = path.tags.get(key)
+            # exhausted: dst[..m] = src[..m] with m = min(len dst, len src), provided the body copied the paired element
+            # (and did nothing else that depends on it); without an iteration m = 0 and the formula leaves dst as it is
+            p2 = path.copy()
+            x0 = strip(I.read_loc(p2, xloc))
+            copied = True
+            if st is not None:
+                ta, ea, eb, nc = st
+                cur = strip(I.read_loc(p2, (ta, ())))
+                if cur == eb and len(p2.conds) == nc:
+                    copied = True
+                elif cur == ea and len(p2.conds) == nc:
+                    copied = False
+                else:
+                    self.unmodelled.append("element-wise loop over a zip that is not a plain copy")
+                    copied = False
+            if copied:
+                m = I.minmax(p2, "min", seq_len(x0), seq_len(y0), 64, False)
+                new = ("sqcat", mk_slice(y0, None, m), mk_slice(x0, m, None))
+                I.write_loc(p2, xloc, new)
+                p2.events.append(("seqstore", xloc, new))
+            outs = [(A.NONE, p2)]
+            if st is None:
+                n_ = len(path.events)
+                ea, eb = ("sqelem", "dst", n_), ("sqelem", "src", n_)
+                ta = ("L", ("zip-dst", frame.fid, t["sp"], n_), 0)
+                tb = ("L", ("zip-src", frame.fid, t["sp"], n_), 0)
+                path.store[ta] = A.W(ea, 8)
+                path.store[tb] = A.W(eb, 8)
+                path.tags[key] = (ta, ea, eb, len(path.conds))
+            else:
+                ta = st[0]
+                tb = ("L", ("zip-src",) + ta[1][1:], 0)
+            outs.append((A.SOME(("agg", "tuple", None, (("ref", (ta, ()), True), ("ref", (tb, ()), False)))), path))
+            return outs
         v0 = I._deref_all(path, a0)
         if not is_seq(v0, self.atom_pred):
             if short in ("take",) and name.startswith("std::mem::") and a0[0] == "ref" and is_seq(I.read_loc(path, a0[1])):
@@ -426,6 +479,8 @@ class SeqMapPrims:
             else:
                 return None
         v0 = strip(v0)
+        if short in ("deref_mut", "as_mut_slice", "as_mut", "borrow_mut") and len(args) == 1 and a0[0] == "ref" and self.loc_of(I, path, a0) is not None:
+            return [(a0, path)]  # a mutable view of the same storage: keeps the location
         if short in ("clone", "to_vec", "to_owned", "as_slice", "as_ref", "deref", "deref_mut", "borrow", "into", "from",
                      "as_mut_slice", "iter", "into_iter", "copied", "cloned", "collect", "into_boxed_slice", "as_mut"):
             return [(v0, path)]
@@ -445,6 +500,12 @@ class SeqMapPrims:
                 if vloc is not None:
                     return [(("sqview", vloc, b[0], b[1]), path)]
             return [(mk_slice(v0, b[0], b[1]), path)]
+        if short == "split_at" and len(args) == 2:
+            rg = ("agg", "adt:std::ops::RangeTo", None, (args[1],))
+            path.events.append(("slice", v0, rg, F.site_str(frame.body, t["sp"]), len(path.conds)))
+            return [(("agg", "tuple", None, (mk_slice(v0, None, args[1]), mk_slice(v0, args[1], None))), path)]
+        if short in ("first", "last", "get") and len(args) <= 2:
+            pass
         # mutations through a reference
         loc = self.loc_of(I, path, tgt)
         if loc is None:
